@@ -7,7 +7,7 @@ on_error='yield' mode and compares every event with mc/models/rowmodel.py.
 """
 import itertools
 
-from mc import engine, readermachine
+from mc import engine, harness, readermachine
 from mc.core import Part
 from mc.models import rowmodel
 
@@ -54,6 +54,15 @@ def judge(case, part):
     for event in observation["events"]:
         part.outcome(event[0] if event[0] == "row" else event[1]["type"])
     readermachine.compare_yield(prediction, observation, basename, part, tag, case, config["fields"])
+    if config.get("checks") and fmt in ("delimited", "fixed") and table:
+        # two Readers constructed up front on one CID, consumed one after the other: the second run is judged like the first
+        m = harness.modules()
+        shared = readermachine.make_cid(config, decls)
+        first = m["validio"].Reader(shared, readermachine.store(config, decls, table)[0], on_error="yield")
+        second = m["validio"].Reader(shared, readermachine.store(config, decls, table)[0], on_error="yield")
+        readermachine.run_reader(shared, None, reader=first)
+        later = readermachine.run_reader(shared, None, reader=second)
+        readermachine.compare_yield(prediction, later, basename, part, tag.replace("%s", "second-reader-constructed-up-front:%s"), case, config["fields"])
     # product state: the implementation's snapshot together with the model's state, so that an
     # implementation that "forgets" something cannot make distinct model states merge
     model_run = prediction["run"]
